@@ -43,11 +43,18 @@ Definition spots (n : nat) : list oinst := repeat (mkInst 0 1 true 0) n.
 (** [CEngine insts evs obs final frame_ok]: an engine with the instruments [insts], all flat with
     default market data; [evs] processed one by one by Engine::process; [obs] = after each event
     the state of the instrument the event was routed to and the PositionExit output of the audit;
-    [final] = all instrument states at the end; [frame_ok] = after every event every other
-    instrument's state was unchanged (Rust ==). *)
+    [final] = all instrument states at the end; [fl] see [flags]. *)
+(** [mkFlags frame_ok restores rt_ok]: [frame_ok] = after every event every other instrument's
+    state was unchanged (Rust ==); [restores] = the event numbers BEFORE which every
+    InstrumentState of the engine (position, market data, orders, tear sheet) was serialised to
+    JSON and restored from it; [rt_ok] = every such round trip gave back a value equal (Rust ==)
+    to the original. The model treats persist / restore as a no-op. *)
+Record flags := mkFlags { f_frame : bool; f_restores : list N; f_rt_ok : bool }.
+Definition okf : flags := mkFlags true [] true.
+
 Inductive case :=
 | CEngine (insts : list oinst) (evs : list oevent) (obs : list (oistate * option oexit))
-          (final : list oistate) (frame_ok : bool).
+          (final : list oistate) (fl : flags).
 
 (* ---- conversion to the model -------------------------------------------------------------------- *)
 
@@ -130,12 +137,12 @@ Fixpoint final_matches (t : tols) (tm : Q) (s : estate) (i : N) (fin : list oist
 
 Definition corr_b (c : case) : bool :=
   match c with
-  | CEngine insts evs obs fin frame_ok =>
+  | CEngine insts evs obs fin fl =>
       let n := ninst insts in
       let t := tols15 evs in
       let tm := tol_mid evs in
       let r := corr_run t tm (fun _ => is0) evs obs in
-      fst r && N.eqb (N.of_nat (length fin)) n && final_matches t tm (snd r) 0 fin && frame_ok
+      fst r && N.eqb (N.of_nat (length fin)) n && final_matches t tm (snd r) 0 fin && (f_frame fl && f_rt_ok fl)
   end.
 
 (* ---- prop_b: oracle on the observed states ---------------------------------------------------------- *)
@@ -271,18 +278,21 @@ Definition l1_times_wf (evs : list oevent) : bool :=
 
 Definition verdicts (c : case) : list N :=
   match c with
-  | CEngine insts evs obs fin frame_ok =>
+  | CEngine insts evs obs fin fl =>
       let indep := l1_times_wf evs in
       prop_run indep (tols15 evs) (if indep then 0 else tol_mid evs) (fun _ => spec0) evs obs
   end.
 
-Definition prop_b (c : case) : bool := forallb (N.eqb 0) (verdicts c).
+Definition rt_ok (c : case) : bool := match c with CEngine _ _ _ _ fl => f_rt_ok fl end.
+
+(** every observed state is accepted and every persist / restore round trip was the identity *)
+Definition prop_b (c : case) : bool := forallb (N.eqb 0) (verdicts c) && rt_ok c.
 
 (** known finding class 1: every failing observation is a position freshly opened by the last
     fill (from flat or as the remainder of a flip), before any priced market event, whose stored
     unrealised PnL is 0 *)
 Definition known_b (c : case) : N :=
-  if forallb (fun v => N.eqb v 0 || N.eqb v 1) (verdicts c) then 1%N else 0%N.
+  if forallb (fun v => N.eqb v 0 || N.eqb v 1) (verdicts c) && rt_ok c then 1%N else 0%N.
 
 (** input requirement: fills with price > 0, quantity > 0, fee >= 0 on existing instruments;
     top-of-book events with non-negative amounts whose sum is not 0 (otherwise the micro-price
@@ -333,7 +343,7 @@ Definition model_case (c : case) : case :=
   match c with
   | CEngine insts evs _ _ _ =>
       let r := model_obs (fun _ => is0) evs in
-      CEngine insts evs (fst r) (map (fun i => oistate_of (snd r (N.of_nat i))) (seq 0 (length insts))) true
+      CEngine insts evs (fst r) (map (fun i => oistate_of (snd r (N.of_nat i))) (seq 0 (length insts))) okf
   end.
 (** on model outputs every oracle failure lies in the known class (the model follows the code)
     and the model agrees with itself *)
